@@ -5,10 +5,13 @@ import os
 import sys
 import time
 
-from .frontend import VERIF
+from .frontend import VERIF, REPO, BUILD
 
-EVIDENCE_DIR = os.path.join(VERIF, 'evidence')
-REPLAY_DIR = os.path.join(VERIF, 'replays')
+# evidence/ describes runs against /repo itself; a run pointed at another checkout (VERIF_REPO, used for seeded changes)
+# writes its evidence and replay files under build/ so that it never overwrites the committed record
+_OTHER = os.path.realpath(REPO) != '/repo'
+EVIDENCE_DIR = os.environ.get('VERIF_EVIDENCE_DIR') or (os.path.join(BUILD, 'evidence-other-checkout') if _OTHER else os.path.join(VERIF, 'evidence'))
+REPLAY_DIR = os.path.join(BUILD, 'replays-other-checkout') if _OTHER else os.path.join(VERIF, 'replays')
 KNOWN = os.path.join(VERIF, 'known_findings.json')
 
 LEVELS = {}
